@@ -26,6 +26,7 @@ DECIDES = (
     " every beam - a 'line' one too - is offered to EdgeList.add with its corner order (part of C07.DIRECTION); curve-snapped, spline and polyLine edges reach the curve with (param_start, param_end) in that order also for descending parameters, evaluated through the edge-data layer (C07.CURVE-DIRECTION = C16.END-PAIRING); face permutations keep edges on their sides (C07.FACE-EDGE-SLOTS = C10.FACE-PERMUTATIONS)."
     ' Edge slots (C07.EDGE-SLOTS = C10.EDGE-MAP), length of descending parameter ranges (C07.LENGTH-DIRECTION = C16.KNOT-DEPENDENCE), the sign of the sector angle (C07.ARC-SIDE = C08.SIGN-FLOWS).'
     ' The tests that decide whether an edge is written at all are absolute tests of a non-negative, unsquared magnitude against the library tolerance (C07.VALIDITY-TOLERANCE); every edge slot owns its edge data (C07.OWN-EDGE-DATA); nothing vertex-dependent is memoised on an edge (C07.NO-MEMO).'
+    " arc_from_theta returns the exact half-way point for minor and reflex sectors (C07.REFLEX-MIDPOINT); every occupied corner pair is listed once also when payload objects are shared (C07.BEAM-LIST); a new edge keeps the vertex order it was given with (part of C07.DEDUP); reverse() of each edge-data kind does what that kind needs (part of C07.REVERSAL); label lists are not the caller's (C07.ARGUMENTS-UNTOUCHED)."
 )
 NOT_DECIDED = "'exactly once' for arbitrary sets of operations defining the same geometric edge; edge lengths and curve shapes."
 ASSUMPTIONS = ["a face's edge i is specified by the user from point i to point i+1 (Face docstring)"]
